@@ -2,21 +2,23 @@
 (* the property itself, decided on the observed run: it terminated within the
    watchdog, nothing panicked, no connection is left registered after Shutdown,
    every call returned a value or pool-closed, a call returned pool-closed only
-   after Shutdown had started, and no call that started after Shutdown had
+   after Shutdown had started, a value only after Run had been called, and no call that started after Shutdown had
    returned got a value *)
-Fixpoint check_log (codes : list Z) (shut_started shut_returned : bool) : bool :=
+Fixpoint check_log (codes : list Z) (shut_started shut_returned run_started : bool) : bool :=
   match codes with
   | [] => shut_returned
   | c :: r =>
-    let k := (c mod 8) / 2 in
+    let k := (c mod 16) / 2 in
     let ran := Z.odd c in
-    if k =? 0 then (if ran then negb shut_returned else true) && check_log r shut_started shut_returned
-    else if k =? 1 then (if ran then true else shut_started) && check_log r shut_started shut_returned
-    else if k =? 2 then negb shut_started && check_log r true shut_returned
-    else shut_started && negb shut_returned && check_log r shut_started true
+    if k =? 0 then (if ran then negb shut_returned else true) && check_log r shut_started shut_returned run_started
+    else if k =? 1 then (if ran then run_started else shut_started) && check_log r shut_started shut_returned run_started
+    else if k =? 2 then negb shut_started && check_log r true shut_returned run_started
+    else if k =? 3 then shut_started && negb shut_returned && check_log r shut_started true run_started
+    else if k =? 4 then negb run_started && check_log r shut_started shut_returned true
+    else run_started && check_log r shut_started shut_returned run_started
   end.
 Definition prop_trace (c : list Z * list Z * bool * Z * Z) : bool :=
   let '(per_thread, codes, hang, size, panics) := c in
-  negb hang && (panics =? 0) && (size =? 0) && check_log codes false false.
+  negb hang && (panics =? 0) && (size =? 0) && check_log codes false false false.
 Definition pf_trace := Eval vm_compute in failing prop_trace cases_trace.
 Print pf_trace.
